@@ -32,7 +32,7 @@ class Cfg:
     nested: bool = True
     display: bool = True
     clip: bool = False
-    clip_rule_on_clippath: bool = False
+    clip_rule_on_clippath: bool = True
     stroke: bool = False
     cascade: bool = False  # paint/opacity at every level via attr and/or style
     opacity: bool = False
@@ -706,6 +706,9 @@ def _stroke_props(draw, cx, allow_dash=True):
     ext = cx.box.ext
     w = draw(st.sampled_from([0.03, 0.05, 0.08, 0.12, 0.2])) * ext
     w = max(round(w, 2), 2.0)
+    if draw(st.integers(0, 14)) == 0:
+        w = 0  # a zero-width stroke paints nothing
+        cx.feat.add("stroke-width-0")
     props = {"stroke": draw(st.sampled_from(PALETTE[8:])), "stroke-width": fmt(w)}
     if draw(st.booleans()):
         props["stroke-linecap"] = draw(st.sampled_from(["butt", "round", "square"]))
